@@ -293,6 +293,10 @@ class MultiWcsProcessor(object):
         for w in workers:
             w.join()
 
+        from .par_util import check_workers_succeeded
+
+        check_workers_succeeded(workers, "parallel tiling")
+
 
 def _mp_tile_worker(queue, done_event, pio, reproject_function, kwargs):
     """
